@@ -38,11 +38,20 @@ pub uninterp spec fn addr_id<A>(a: Addr<A>) -> int;
 /// one message handed to one actor
 pub ghost struct Eff { pub to: int, pub msg: Msg }
 pub open spec fn sent<A, M>(to: Addr<A>, m: M) -> Eff { Eff { to: addr_id(to), msg: msg_of(m) } }
-pub tracked struct VxLog { pub ghost s: Seq<Eff> }
+pub tracked struct VxLog { pub ghost s: Seq<Eff>, pub ghost replies: Seq<ReplyVal> }
 #[verifier::external_body]
 pub fn vx_note<A, M>(to: &Addr<A>, m: M, Tracked(log): Tracked<&mut VxLog>) -> (r: M)
-    ensures r == m, final(log).s == old(log).s.push(sent(*to, m))
+    ensures r == m, final(log).s == old(log).s.push(sent(*to, m)), final(log).replies == old(log).replies
 { m }
+/// T17 (reply log, flag `replies`): the answers a function got to the messages it sent with `send(..).await`, in order
+pub ghost enum ReplyVal { Index(Result<anyhow::Result<RaftIndexResponse>, MailboxError>), Other }
+pub uninterp spec fn reply_val<R>(r: R) -> ReplyVal;
+pub broadcast axiom fn axiom_reply_val_index(r: Result<anyhow::Result<RaftIndexResponse>, MailboxError>)
+    ensures #[trigger] reply_val(r) == ReplyVal::Index(r);
+#[verifier::external_body]
+pub fn vx_reply<R>(r: R, Tracked(log): Tracked<&mut VxLog>) -> (o: R)
+    ensures o == r, final(log).s == old(log).s, final(log).replies == old(log).replies.push(reply_val(r))
+{ r }
 
 /// a membership message is its list of node ids (the capacity of the Vec that carries it is not part of the message)
 pub open spec fn member_msg(m: Vec<u64>) -> RaftIndexRequest { RaftIndexRequest::SaveMember { member: m, member_after_consensus: None, node_addr: None } }
@@ -199,7 +208,8 @@ pub enum RaftLogManagerAsyncRequest {
     GetLastLogIndex,
     Load { start: u64, end: u64, loader: Arc<LogRecordLoaderInstance> },
 }
-pub struct RaftLogResponse { pub vx_opaque: u8 }
+/// model of raftlog::RaftLogResponse restricted to the answers the storage boundary looks at
+pub enum RaftLogResponse { None, LastLogIndex(LogIndexInfo) }
 impl Message for RaftLogManagerAsyncRequest { type Result = anyhow::Result<RaftLogResponse>; }
 /// a replay request is (first index, end index, the loader's wiring) — which Arc carries the loader is not part of the message
 pub uninterp spec fn load_msg(start: u64, end: u64, loader: LogRecordLoaderInstance) -> Msg;
@@ -262,6 +272,102 @@ impl SnapshotReader {
             Err(_) => old(self).faulty(),
         }
         // >>abstract
+    { unimplemented!() }
+}
+
+// ---- the RaftStorage boundary (FileStore): what async-raft calls
+impl Message for StateApplyRequest { type Result = anyhow::Result<StateApplyResponse>; }
+impl Message for StateApplyAsyncRequest { type Result = anyhow::Result<StateApplyResponse>; }
+/// tokio::sync::oneshot, reduced: a channel is a pair with a common (ghost) identity; awaiting the receiver yields whatever the
+/// other side sent, or a receive error when the sender was dropped
+pub mod oneshot_shim {
+    use vstd::prelude::*;
+    verus! {
+    #[verifier::external_body]
+    #[verifier::reject_recursive_types(T)]
+    pub struct Sender<T> { inner: core::marker::PhantomData<T> }
+    #[verifier::external_body]
+    #[verifier::reject_recursive_types(T)]
+    pub struct Receiver<T> { inner: core::marker::PhantomData<T> }
+    #[derive(Debug)]
+    pub struct RecvError { pub vx_opaque: u8 }
+    pub uninterp spec fn tx_id<T>(s: Sender<T>) -> int;
+    pub uninterp spec fn rx_id<T>(r: Receiver<T>) -> int;
+    #[verifier::external_body]
+    pub fn channel<T>() -> (r: (Sender<T>, Receiver<T>)) ensures tx_id(r.0) == rx_id(r.1) { unimplemented!() }
+    impl<T> Receiver<T> {
+        #[verifier::external_body]
+        pub async fn vx_recv(self) -> (r: Result<T, RecvError>) { unimplemented!() }
+    }
+    }
+}
+impl From<oneshot_shim::RecvError> for anyhow::Error {
+    #[verifier::external_body]
+    fn from(e: oneshot_shim::RecvError) -> Self { anyhow::vx_mk_err() }
+}
+pub type LogWriteResultSender = oneshot_shim::Sender<anyhow::Result<WriteLogResult>>;
+/// model of raftlog::RaftLogManagerRequest without the `Load` variant (its loader is a trait object; start-up uses the async request)
+pub enum RaftLogManagerRequest {
+    Write { record: LogRecordDto, sender: LogWriteResultSender },
+    WriteBatch { records: Vec<LogRecordDto>, sender: LogWriteResultSender },
+    StripLogToIndex { end_index: u64, sender: LogWriteResultSender },
+    SplitOff(u64), BuildSnapshotPointerLog(LogRecordDto), InstallSnapshotPointerLog(LogRecordDto),
+}
+impl Message for RaftLogManagerRequest { type Result = anyhow::Result<RaftLogResponse>; }
+pub assume_specification<T: std::default::Default + std::marker::Destruct, E: std::marker::Destruct>[ std::result::Result::<T, E>::unwrap_or_default ](r: std::result::Result<T, E>) -> (o: T)
+    ensures r matches Ok(v) ==> o == v;
+/// async-raft's InitialState, reduced to its fields
+pub struct InitialState { pub last_log_index: u64, pub last_log_term: u64, pub last_applied_log: u64, pub hard_state: HardState, pub membership: MembershipConfig }
+impl InitialState {
+    #[verifier::external_body]
+    pub fn new_initial(id: u64) -> (r: Self) { unimplemented!() }
+}
+impl Default for LogIndexInfo {
+    #[verifier::external_body]
+    fn default() -> (r: Self) ensures r.index == 0, r.term == 0 { unimplemented!() }
+}
+/// async-raft's HardState / MembershipConfig, reduced to their fields
+pub struct HardState { pub current_term: u64, pub voted_for: Option<u64> }
+pub struct MembershipConfig { pub members: HashSet<u64>, pub members_after_consensus: Option<HashSet<u64>> }
+impl MembershipConfig {
+    #[verifier::external_body]
+    pub fn new_initial(id: u64) -> (r: Self) { unimplemented!() }
+}
+#[verifier::external_body]
+pub fn vec_to_set(list: &Vec<u64>) -> (r: HashSet<u64>) ensures r@ == list@.to_set() { unimplemented!() }
+/// the storage object async-raft talks to: its node id and the four storage actors (pinned by [[expect_text]])
+pub struct FileStore {
+    pub node_id: u64,
+    pub index_manager: Addr<RaftIndexManager>,
+    pub snapshot_manager: Addr<RaftSnapshotManager>,
+    pub log_manager: Addr<RaftLogManager>,
+    pub apply_manager: Addr<StateApplyManager>,
+}
+impl FileStore {
+    /// the raft write switch (an AtomicBool read): uninterpreted
+    pub uninterp spec fn closed(&self) -> bool;
+    #[verifier::external_body]
+    pub fn is_close_write(&self) -> (r: bool) ensures r == self.closed() { unimplemented!() }
+}
+/// `str::parse::<u64>`: a function of the text
+pub uninterp spec fn parse_u64(s: Seq<char>) -> Option<u64>;
+#[verifier::external_body]
+pub fn vx_parse_u64(s: &String) -> (r: anyhow::Result<u64>)
+    ensures r is Ok <==> parse_u64(s@) is Some, r is Ok ==> r.unwrap() == parse_u64(s@).unwrap()
+{ unimplemented!() }
+/// the snapshot-pointer entry async-raft stores in the log, and its JSON record: functions of their arguments
+pub uninterp spec fn pointer_entry(index: u64, term: u64, id: Seq<char>, m: MembershipConfig) -> Entry<ClientRequest>;
+pub uninterp spec fn record_of_entry(e: Entry<ClientRequest>) -> Option<LogRecordDto>;
+impl Entry<ClientRequest> {
+    #[verifier::external_body]
+    pub fn new_snapshot_pointer(index: u64, term: u64, id: String, membership: MembershipConfig) -> (r: Self)
+        ensures r == pointer_entry(index, term, id@, membership)
+    { unimplemented!() }
+}
+impl StoreUtils {
+    #[verifier::external_body]
+    pub fn entry_to_record(entry: &Entry<ClientRequest>) -> (r: anyhow::Result<LogRecordDto>)
+        ensures r is Ok <==> record_of_entry(*entry) is Some, r is Ok ==> r.unwrap() == record_of_entry(*entry).unwrap()
     { unimplemented!() }
 }
 } // verus!
